@@ -3,6 +3,7 @@ use serde_json::Value;
 
 pub type AreaFn = fn(&Value) -> Vec<Value>;
 
+mod c15rt;
 pub mod co;
 mod conc;
 pub mod sched;
@@ -18,6 +19,7 @@ mod timed;
 pub fn lookup(name: &str) -> Option<AreaFn> {
     match name {
         "time" => Some(time::run),
+        "c15rt" => Some(c15rt::run),
         "ows" => Some(ows::run),
         "co" => Some(co::run),
         "conc" => Some(conc::run),
